@@ -284,7 +284,7 @@ def run(ctx):
                        "'supplied' = non-empty after whitespace removal"]
     ccs = o.countries() + ["XX", "de", "", "ZZ"]
     ctx.pmap(shard, [(cc, ctx.seed, ctx.tier) for cc in ccs])
-    ctx.hyp_explore(strategy(), hyp_body, ctx.pick(4000, 150000), name="C08-hyp")
+    ctx.hyp_parallel(strategy, hyp_body, ctx.pick(8000, 400000), name="C08-hyp")
     with_pos = []
     for cc in o.countries():
         pos = o.positions(cc)
